@@ -55,6 +55,19 @@ type verifDBStack struct {
 	cfgStr      string
 }
 
+// verifDBReadCloser closes the bolt file together with the reader (own type: the package's test
+// helpers are not part of any API).
+type verifDBReadCloser struct {
+	metadata.Reader
+	closeFn func() error
+}
+
+func (r *verifDBReadCloser) Close() error {
+	err := r.Reader.Close()
+	r.closeFn()
+	return err
+}
+
 func verifDBStore(dir string) metadata.Store {
 	return func(sr *io.SectionReader, opts ...metadata.Option) (metadata.Reader, error) {
 		f, err := os.CreateTemp(dir, "verifdb")
@@ -71,7 +84,7 @@ func verifDBStore(dir string) metadata.Store {
 			db.Close()
 			return nil, err
 		}
-		return &readCloser{Reader: r, closeFn: func() error { db.Close(); return os.Remove(f.Name()) }}, nil
+		return &verifDBReadCloser{Reader: r, closeFn: func() error { db.Close(); return os.Remove(f.Name()) }}, nil
 	}
 }
 
